@@ -99,7 +99,7 @@ inductive Cmd
   /-- `dst = std::move(src)` -/
   | moveAssign (dst src : Nat)
   | swap (a b : Nat)
-  /-- harness-only: `currentCounter := max currentCounter (M - k)` (places the wrap, C19) -/
+  /-- harness-only: `currentCounter := max currentCounter (M - k)` for `0 < k ≤ M` (places the wrap, C19) -/
   | setCounter (l : Nat) (k : Nat)
 deriving DecidableEq, Repr
 
